@@ -65,7 +65,7 @@ theorem WFs_cons (c : ℕ) (w : List ℕ) : WFs (c :: w) ↔ c ≤ MAX_CHAR ∧ 
 
 /-! ### powers of a language -/
 
-theorem nil_mem_pow {L : Language ℕ} (h : [] ∈ L) (k : ℕ) : ([] : List ℕ) ∈ L ^ k := by
+theorem nil_mem_pow_of_nil_mem {L : Language ℕ} (h : [] ∈ L) (k : ℕ) : ([] : List ℕ) ∈ L ^ k := by
   induction k with
   | zero => simp [Language.mem_one]
   | succ k ih => rw [pow_succ', Language.mem_mul]; exact ⟨[], h, [], ih, rfl⟩
@@ -134,7 +134,7 @@ theorem loopMatch_iff (m : List ℕ → Bool) (L : Language ℕ)
       · subst h
         refine ⟨0, le_rfl, ?_, by simp [Language.mem_one]⟩
         cases hi <;> simp [hiOK]
-      · exact ⟨lo, le_rfl, hlh, nil_mem_pow (hm0.1 h) lo⟩
+      · exact ⟨lo, le_rfl, hlh, nil_mem_pow_of_nil_mem (hm0.1 h) lo⟩
     · rintro ⟨k, hk, _, hmem⟩
       by_cases h0 : lo = 0
       · exact Or.inl h0
